@@ -102,6 +102,9 @@ impl Oracle {
         if msgs.len() >= 256 {
             ctx.stats.probe("batches_of_256_or_more_reports");
         }
+        if msgs.len() > 4096 {
+            ctx.stats.probe("batches_of_more_than_4096_reports");
+        }
         let below = w.groups.len() - ideal.len();
         if !ideal.is_empty() && below > 0 {
             ctx.stats.nontrivial = true;
@@ -145,8 +148,19 @@ impl Property for C18 {
         gen.max_groups = if ctx.thorough { 12 } else { 6 };
         gen.max_clients_total = 90;
         // every 6th run is a LARGE batch (hundreds of reports, many groups): size-dependent code paths
-        let large = ctx.ch.chance(1, 6);
-        if large {
+        let huge = ctx.ch.chance(1, if ctx.thorough { 60 } else { 100 });
+        let large = huge || ctx.ch.chance(1, 6);
+        if huge {
+            // several thousand reports in one batch
+            gen.max_groups = 1000;
+            gen.min_groups = 900;
+            gen.max_clients_total = 6000;
+            gen.thresholds = vec![5, 8];
+            gen.aux_kinds = vec![-1, 1, 4];
+            gen.meas_lens = vec![5, 11];
+            gen.count_offsets = vec![-1, 0, 0, 1, 3];
+            ctx.stats.probe("runs_with_thousands_of_reports");
+        } else if large {
             gen.max_groups = 60;
             gen.min_groups = 35;
             gen.max_clients_total = if ctx.thorough { 1200 } else { 520 };
@@ -161,8 +175,14 @@ impl Property for C18 {
         if !ctx.ch.chance(2, 3) {
             net.drop = 0;
         }
+        if huge {
+            net.drop = 20;
+        }
         let mut w = WorldA::build(ctx, gen, net, false);
-        let mut o = Oracle { checks: 0 };
+        if huge {
+            w.sim.step_cap = 200_000;
+        }
+        let mut o = Oracle { checks: if huge { 2 } else { 0 } };
         w.run(ctx, &mut o)
     }
     fn real_components(&self) -> Vec<&'static str> {
